@@ -335,9 +335,18 @@ package factstore
 //@   modifies nothing
 //@   ensures result == tview(s, atom)
 
+// A new teeing layer writes to an output store of its own: nothing written through it reaches the store it was
+// built over (the interpreter keeps that store as the checkpoint a pop returns to).
+//@ func NewTeeingStore(base)
+//@   ensures result.base == base && result.Out != nil
+//@   ensures !old(allocated(result.Out))
+
+// ... and an atom that the base store already holds is not written to the output store as well (a pattern query
+// reports base and output: the atom would come out twice and an aggregate would count it twice).
 //@ func (s TeeingStore) Add(atom)
 //@   requires twf(s)
 //@   modifies view(s.Out), fcount(s.Out)
+//@   guard call Add: !(atom in view(s.base))
 //@   ensures result == !old(tview(s, atom))
 //@   ensures forall b ast.Atom :: tview(s, b) == (old(tview(s, b)) || ast.atomEq(b, atom))
 
@@ -479,6 +488,7 @@ package factstore
 // Reading a file into a store adds exactly what the lazy view would answer: a zero-arity predicate is a fact
 // only if its recorded count is positive.
 //@ func (sc SimpleColumn) ReadInto(r, store)
+//@   guard return in loop 1: result != nil
 //@   guard call Add: rangeindex >= 0 && rangeindex < len(preds) && (preds[rangeindex].Arity == 0 ==> predNumFacts[rangeindex] > 0)
 //@   loop 1 invariant hdrOK(preds, predNumFacts)
 
